@@ -47,9 +47,11 @@ KNOWN_KEYS = set()
 INF = float("inf")
 TOL = 1e-6
 
-EX_B = [(-10.0, 1000.0), (-1000.0, 1000.0), (0.0, 1000.0), (-5.0, 10.0), (-10.0, 0.0), (-10.0, 1000.0), (-3.0, 1000.0)]
+EX_B = [(-10.0, 1000.0), (-1000.0, 1000.0), (0.0, 1000.0), (-5.0, 10.0), (-10.0, 0.0), (-10.0, 1000.0), (-3.0, 1000.0),
+        (-3000.0, 1000.0), (-20.0, 5.0)]
 IN_B = [(0.0, 1000.0)] * 4 + [(-1000.0, 1000.0)] * 4 + [(0.0, 10.0), (-10.0, 10.0), (-1000.0, 0.0), (-1000.0, 0.0),
                                                         (1.0, 10.0), (0.0, 5.0), (-5.0, 1000.0), (-10.0, -1.0), (2.0, 2.0),
+                                                        (-3000.0, 1000.0), (-20.0, 5.0), (-1000.0, 3000.0),
                                                         (0.0, INF), (-INF, INF), (-INF, 0.0)]
 
 
@@ -224,30 +226,80 @@ def cases_for(model, rng, tier):
         add(method="pfba", api=rng.choice(["pfba", "pfba", "add_pfba"]), fraction=rng.choice([0.0, 0.5, 1.0, 1.0]),
             objective=spec, reactions=None)
     for _ in range(1 if tier == "quick" else 3):
-        sub = rng.sample(rids, rng.randint(1, max(1, len(rids) - 1)))
+        sub = rng.sample(rids, rng.randint(1, max(1, len(rids) - 1)))       # random order, not the model's
         add(method="pfba", api="pfba", fraction=rng.choice([0.0, 0.5, 1.0]), objective=None, reactions=sub,
             as_ids=rng.random() < 0.5)
-    # knock-out states
+    # all reactions, but listed in another order than model.reactions: the fluxes must follow the ids
+    add(method="pfba", api="pfba", fraction=rng.choice([0.5, 1.0]), objective=None, reactions=_reorder(rids, rng),
+        as_ids=rng.random() < 0.5, full=True)
+    # knock-out states; "remove" = the reaction is deleted from the model (remove_reactions) instead of knocked out, so the
+    # wild-type reference has one row more than model.reactions
     kos = [None]
-    pool = [["reaction", r] for r in rids] + [["gene", g] for g in gids]
+    pool = [["reaction", r] for r in rids] + [["gene", g] for g in gids] + [["remove", r] for r in rids]
     rng.shuffle(pool)
-    kos += pool[: (3 if tier == "quick" else 6)]
+    kos += pool[: (4 if tier == "quick" else 8)]
     for ko in kos:
         refs = ["pfba", "fba", "default"] if ko is None else [rng.choice(["pfba", "fba"]), rng.choice(["pfba", "default"])]
+        if ko is not None and ko[0] == "remove":
+            refs = ["pfba", "fba"]
         for ref in dict.fromkeys(refs):
-            add(method="moma", api=rng.choice(["moma", "moma", "add_moma"]), ref=ref, ko=ko)
+            # row order of the given reference Solution: the model's, reversed or shuffled (pfba(reactions=...) /
+            # get_solution(reactions=...)); resort: model.reactions itself is reversed after the reference was taken
+            order = None if ref == "default" else rng.choice([None, "reversed", ["shuffled", rng.randrange(10**6)]])
+            resort = ref != "default" and rng.random() < 0.15
+            add(method="moma", api=rng.choice(["moma", "moma", "add_moma"]), ref=ref, ko=ko, order=order, resort=resort)
             if finite and len(rids) <= 8:
                 de = rng.choice([(0.03, 1e-3)] * 3 + [(0.1, 0.01), (0.0, 0.5)])
+                order = None if ref == "default" else rng.choice([None, "reversed", ["shuffled", rng.randrange(10**6)]])
                 add(method="room", api=rng.choice(["room", "room", "add_room"]), linear=False, ref=ref, ko=ko,
-                    delta=de[0], epsilon=de[1])
-                add(method="room", api="room", linear=True, ref=ref, ko=ko, delta=0.03, epsilon=1e-3)
+                    delta=de[0], epsilon=de[1], order=order, resort=False)
+                add(method="room", api="room", linear=True, ref=ref, ko=ko, delta=0.03, epsilon=1e-3,
+                    order=order if rng.random() < 0.5 else None, resort=resort and rng.random() < 0.5)
     return cases
+
+
+def _reorder(rids, rng):
+    if len(rids) < 2:
+        return list(rids)
+    out = list(reversed(rids)) if rng.random() < 0.5 else rng.sample(rids, len(rids))
+    return out if out != list(rids) else list(reversed(rids))
+
+
+def _ordered(rids, order):
+    if order is None:
+        return list(rids)
+    if order == "reversed":
+        return list(reversed(rids))
+    out = list(rids)
+    random.Random(order[1]).shuffle(out)
+    return out if out != list(rids) or len(rids) < 2 else list(reversed(rids))
+
+
+NOISE_MODEL = {"id": "c09_noise0", "metabolites": [["m0", "c"], ["m1", "c"], ["m2", "c"]],
+               "reactions": [["EX_m0", -10.0, 1000.0, {"m0": -1.0}, ""], ["EX_m1", -3.0, 1000.0, {"m1": -1.0}, ""],
+                             ["EX_m2", -5.0, 10.0, {"m2": -1.0}, ""],
+                             ["R0", -5.0, 1000.0, {"m2": -1.0, "m1": -1.0, "m0": 2.0}, "g1 and (g2 or g3)"],
+                             ["R1", -10.0, 10.0, {"m2": -1.0, "m1": -1.0, "m0": 2.0}, "(g1 or g2) and (g3 or g4)"],
+                             ["R2", 2.0, 2.0, {"m0": -1.0, "m2": 1.0, "m1": 1.0}, "g2"],
+                             ["R3", -10.0, 10.0, {"m2": -1.0, "m0": 1.0, "m1": 1.0}, "(g1 and g2) or g3"]],
+               "objective": {"EX_m2": 2.0}, "direction": "max"}
+
+
+def fixed_cases():
+    """seed-independent witnesses of the open class room-linear:noise-coefficient (stable ids, KNOWN_C09.json)"""
+    out = []
+    for ko in (None, ["gene", "g1"], ["gene", "g3"], ["reaction", "R1"]):
+        tag = "none" if ko is None else ":".join(ko)
+        out.append({"method": "room", "api": "room", "linear": True, "ref": "default", "ko": ko, "delta": 0.03,
+                    "epsilon": 1e-3, "order": None, "resort": False, "model": NOISE_MODEL, "carries": True,
+                    "witness": f"noise-fixed#0:relaxed:default-ref:ko={tag}"})
+    return out
 
 
 def build_cases(tier, seed):
     rng = random.Random(seed * 7919 + 13)
     n_models = 75 if tier == "quick" else 800
-    cases = []
+    cases = fixed_cases()
     for m in corner_models():
         cases += cases_for(m, rng, tier)
     made = 0
@@ -321,7 +373,7 @@ def check_pfba(case):
             fails.append(("pfba:objective_value", f"objective_value {sol.objective_value!r} != exact minimum total flux "
                                                   f"{float(tot)!r} (opt={float(opt)}, fraction={f}, direction {d})"))
         v = U.fluxdict(sol.fluxes)
-        if rx is None:
+        if rx is None or case.get("full"):
             if set(v) != set(lp.vars):
                 fails.append(("pfba:subset-ids", f"fluxes for {sorted(v)} expected all reactions"))
             else:
@@ -352,15 +404,25 @@ def _apply_ko(model, ko):
         return
     if ko[0] == "reaction":
         model.reactions.get_by_id(ko[1]).knock_out()
+    elif ko[0] == "remove":
+        model.remove_reactions([model.reactions.get_by_id(ko[1])])
     else:
         model.genes.get_by_id(ko[1]).knock_out()
 
 
-def _reference(model, kind):
+def _reference(model, kind, order=None):
+    """a Solution of the wild type whose rows follow `order` (None: model.reactions)"""
+    from cobra.core import get_solution
     from cobra.flux_analysis import pfba
     if kind == "default":
         return None
-    sol = pfba(model) if kind == "pfba" else model.optimize()
+    rids = _ordered([r.id for r in model.reactions], order)
+    if kind == "pfba":
+        sol = pfba(model) if order is None else pfba(model, reactions=[model.reactions.get_by_id(x) for x in rids])
+    else:
+        sol = model.optimize()
+        if order is not None:
+            sol = get_solution(model, reactions=[model.reactions.get_by_id(x) for x in rids])
     sol.fluxes = sol.fluxes.round(9)
     sol.objective_value = round(float(sol.objective_value), 9)
     return sol
@@ -412,13 +474,16 @@ def check_moma_room(case):
     model = U.rebuild(case["model"])
     method = case["method"]
     fails = []
-    ref = _reference(model, case["ref"])
-    _, c, d = oracle_lp.fba_lp(model)
+    ref = _reference(model, case["ref"], case.get("order"))
+    if case.get("resort"):
+        model.reactions.reverse()          # the model's list order changes after the reference was taken
     sol, exc = None, None
-    with model:
-        _apply_ko(model, case["ko"])
+    # the knock-out state is set on the freshly built model without an enclosing context (the analyses open their own)
+    _apply_ko(model, case["ko"])
+    if True:
         bounds = {r.id: (float(r.lower_bound), float(r.upper_bound)) for r in model.reactions}
-        lp, _, _ = oracle_lp.fba_lp(model)
+        rows = U.stoich(model)
+        lp, c, d = oracle_lp.fba_lp(model)
         feasible = lp.feasible()
         try:
             if method == "moma":
@@ -452,7 +517,7 @@ def check_moma_room(case):
         return {"failures": fails, "nontrivial": bool(case["carries"]), "exact": "infeasible", "observed": None}
     # the reference the documented problem refers to
     if ref is not None:
-        refv = U.fluxdict(ref.fluxes)
+        refv = {k: x for k, x in U.fluxdict(ref.fluxes).items() if k in bounds}    # by id; a removed reaction has no term
         ref_obj = float(ref.objective_value)
     else:
         refv = None          # pFBA of the model as passed: feasible for it, so every documented minimum is 0
@@ -472,8 +537,11 @@ def check_moma_room(case):
                          f"{'exception ' + repr(exc) if exc else 'status ' + str(sol.status)}"))
         return {"failures": fails, "nontrivial": bool(case["carries"]), "exact": None, "observed": None}
     v = U.fluxdict(sol.fluxes)
-    for p in U.flux_problems(model, v, bounds=bounds):
+    probs = U.flux_problems(model, v, bounds=bounds, rows=rows)
+    for p in probs:
         fails.append((f"{key}:infeasible-flux", p))
+    if probs and set(v) != set(bounds):
+        return {"failures": fails, "nontrivial": bool(case["carries"])}
     if method == "moma":
         if refv is None:
             exact = Fraction(0)
@@ -513,12 +581,15 @@ def check_moma_room(case):
                     # the default reference is pfba(model) in this very state (deterministic): is one of its fluxes within
                     # rounding noise of a bound?  then add_room builds a row with a ~1e-16 coefficient (NOTES_C09.md)
                     from cobra.flux_analysis import pfba as _pfba
-                    with model:
-                        _apply_ko(model, case["ko"])
-                        pv = U.fluxdict(_pfba(model).fluxes)
+                    pv = U.fluxdict(_pfba(model).fluxes)
                     noisy = [rid for rid, w in pv.items() for b in bounds[rid] if 0 < abs(w - b) < 1e-9]
                     if noisy:
                         k = "room-linear:noise-coefficient"
+                        if not case.get("witness"):
+                            # open class (NOTES_C09 finding 2): reported from the fixed witnesses only; a seeded model
+                            # that happens to hit the same degenerate reference is counted, not reported
+                            return {"failures": fails, "nontrivial": bool(case["carries"]), "skipped_noise": 1,
+                                    "exact": 0.0, "observed": sol.objective_value}
                 fails.append((k, f"relaxed ROOM objective_value {sol.objective_value!r} != exact minimum {float(exact)!r}"
                                  f" (with the undocumented cap: {None if capped is None else float(capped)})"))
         else:
@@ -558,7 +629,8 @@ def run_case(case):
     light = {k: v for k, v in case.items() if k not in ("model", "carries")}
     if "sig" not in res:
         res["sig"] = U.case_sig([U.model_sig(case["model"]), light])
-    res["failures"] = [{"key": k, "failure": f"{case['method']} {light}: {msg}", "replay": case} for k, msg in res["failures"]]
+    res["failures"] = [{"key": k, "failure": f"{case['method']} {light}: {msg}", "replay": case,
+                        "witness": case.get("witness")} for k, msg in res["failures"]]
     res["sample"] = {"case": light, "model": case["model"], "exact": res.get("exact"), "observed": res.get("observed")}
     return res
 
